@@ -4,7 +4,7 @@ From Coq Require Import Reals ZArith List.
 From Flocq Require Import Core.Raux.
 From QV Require Import Rt.Prelude Rt.Amount Rt.Quantity Gen.Prefixes Gen.Kernels Amount.DecModel Amount.Dec Amount.DecAcc
   Proofs.Laws Proofs.Kernel Proofs.C09 Proofs.Derived Proofs.AccDec Proofs.AccDecExamples.
-From QV Require Amount.Laws.
+From QV Require Amount.Laws Proofs.C14.
 From QV Require Import Props.AccuracyDec.
 Local Open Scope R_scope.
 Check DEC_operations :
@@ -97,3 +97,8 @@ Check DEC_C04_fit_path : forall (op : dec -> dec -> res dec) (rop : R -> R -> R)
     Rabs (dval m - rop (dval a) (dval b) * rop (dval su) (dval sv)) <= half_ulp18 * (Rabs (dval sc) + Rabs (rop (dval a) (dval b)) + 1) /\
     Rabs (dmag_o R0 z - dval m) <= half_ulp18 * Rabs (dval (u_scale R0 (q_unit R0 z))).
 Check DEC_C04_operations : dop_rel dec_mul Rmult (fun _ => True) /\ dop_rel dec_div Rdiv (fun y => dval y <> 0).
+Check DEC_C14_affine : forall (S : QBase DEC), QLaws S -> forall (q : Qt S) (to : nat) (k c : dec) (z : Qt S),
+  In to (u_iter S) -> Amount.Laws.dec_ok (q_amount S q) -> Amount.Laws.dec_ok k -> Amount.Laws.dec_ok c ->
+  Proofs.C14.affine S q to (k, c) = Ok (Some z) ->
+  q_unit S z = to /\ Rabs (dval (q_amount S z) - (dval (q_amount S q) * dval k + dval c)) <= half_ulp18 /\
+  ((d_nfd (q_amount S q) + d_nfd k <= 18)%Z -> dval (q_amount S z) = dval (q_amount S q) * dval k + dval c).
